@@ -860,11 +860,11 @@ class RegionObjectsState:
 
     def cancel_futures(self, local_id: int):
         # Object went away, so need to kill any pending futures.
+        # There may be futures for several kinds of update for the same object
         for fut_key, futs in self._object_futures.items():
             if fut_key[0] == local_id:
                 for fut in futs:
                     fut.cancel()
-                break
 
 
 class LocationType(enum.IntEnum):
